@@ -188,6 +188,8 @@ func (pb *PrimaryBlock) UnmarshalCbor(r io.Reader) error {
 
 	if bcf, err := cboring.ReadUInt(r); err != nil {
 		return err
+	} else if hasFrag := blockLen == 10 || blockLen == 11; hasFrag != BundleControlFlags(bcf).Has(IsFragment) {
+		return fmt.Errorf("array of %d elements does not match the fragment flag", blockLen)
 	} else {
 		pb.BundleControlFlags = BundleControlFlags(bcf)
 	}
